@@ -127,19 +127,26 @@ func cByteList(b []byte) string {
 func c17Stream(ctx *Ctx, i int, rng *rand.Rand, big bool) {
 	nmsg := 1 + rng.Intn(6)
 	w := &recWriter{}
-	wc := jsonrpc2.IOCodec(rwcT{bytes.NewReader(nil), w, nopCloser{}})
+	var wc jsonrpc2.Codec = jsonrpc2.IOCodec(rwcT{bytes.NewReader(nil), w, nopCloser{}})
+	if i%10 == 9 || i%10 == 4 {
+		wc = jsonrpc2.DebugCodec("writer", wc)
+	}
 	var written [][]byte
 	var mon []string
 	for k := 0; k < nmsg; k++ {
 		m := genMessage(rng, i*100+k, big)
+		asHanded := canon(m)
 		before := w.writes
 		if err := wc.WriteMessage(m); err != nil {
 			fatal("write: %v", err)
 		}
+		if !bytes.Equal(asHanded, canon(m)) {
+			mon = append(mon, "c17-message-altered-by-write: the message handed to WriteMessage is not the same message afterwards")
+		}
 		if w.writes-before != 1 {
 			mon = append(mon, fmt.Sprintf("c17-multiple-writes: one message was written with %d Write calls (concurrent writers could interleave)", w.writes-before))
 		}
-		written = append(written, canon(m))
+		written = append(written, asHanded)
 	}
 	stream := append([]byte{}, w.buf.Bytes()...)
 	// partition
@@ -179,7 +186,12 @@ func c17Stream(ctx *Ctx, i int, rng *rand.Rand, big bool) {
 		}
 	}
 	cr := &chunkReader{data: stream, sizes: append([]int{}, sizes...)}
-	rc := jsonrpc2.IOCodec(rwcT{cr, io.Discard, nopCloser{}})
+	var rc jsonrpc2.Codec = jsonrpc2.IOCodec(rwcT{cr, io.Discard, nopCloser{}})
+	if i%10 == 9 || i%10 == 4 {
+		// with the logging wrapper the binaries put around a codec when asked for verbose output:
+		// what it logs is its business, what it hands on is the message
+		rc = jsonrpc2.DebugCodec("reader", rc)
+	}
 	var read [][]byte
 	for {
 		m, err := rc.ReadMessage()
@@ -681,7 +693,24 @@ func c17SlowReader(ctx *Ctx, i int, stall time.Duration) {
 	if len(mon) == 0 && pos < len(acked) {
 		mon = append(mon, fmt.Sprintf("c17-slow-reader: the reader stopped for %s in the middle of the first message and then went on reading; %d writes were reported as done, %d of them were received intact (the reader ended with %q). Writes: %s", stall, len(acked), pos, readErr, strings.Join(log, "; ")))
 	}
-	ctx.Emit(Case{I: i, Kind: "slow-reader", Desc: map[string]interface{}{"stall_ms": stall.Milliseconds(), "writes": log, "received": len(got)}, Monitor: mon})
+	// the same on the model: the messages whose write was reported as done, read in two pieces
+	// (the few bytes before the pause, the rest after it)
+	coq := ""
+	total := 0
+	for _, a := range acked {
+		total += len(a) + 1
+	}
+	if total <= 1500 {
+		var ws, rs []string
+		for _, b := range acked {
+			ws = append(ws, cByteList(b))
+		}
+		for _, b := range got {
+			rs = append(rs, cByteList(b))
+		}
+		coq = fmt.Sprintf("{| c17_written := %s; c17_chunks := %s; c17_read := %s |}", cList(ws), cList([]string{cNat(len(head))}), cList(rs))
+	}
+	ctx.Emit(Case{I: i, Kind: "slow-reader", Coq: coq, Desc: map[string]interface{}{"stall_ms": stall.Milliseconds(), "writes": log, "received": len(got)}, Monitor: mon})
 }
 
 func runC17(ctx *Ctx) {
